@@ -8,6 +8,7 @@ CHECK = dict(
         "rule grammar restricted to plain domains, ||d^, ||.^, *$dnstype=[~]T, $dnstype=[~]T and @@ exceptions of these over letter/digit labels (the model was compared with the real access.Global / DefaultProfile engines on these forms); urlfilter's pattern matching is trusted",
         "concurrent batches sample real goroutine schedules (start barrier); the interleaving is not owned",
         "rate limiters are scripted to pass (drops are C09/C15's subject); prometheus metrics and debug logs are not counted as trace",
+        "cmd unit: a plain domain in blocked_question_domains is only judged on the name itself and on names that do not contain it (the documentation does not say whether it covers subdomains)",
     ],
     units=[
         dict(name="dnssvc", dir="internal/dnssvc", src=["C10/fixture", "C10/dnssvc"], runs=[
@@ -15,6 +16,9 @@ CHECK = dict(
             dict(name="race", run="^TestVerifC10Access$", quick=1500, thorough=40000, shards_thorough=4, race=True),
             dict(name="realgeoip", run="^TestVerifC10RealGeoIP$", quick=600, thorough=20000, shards_thorough=4),
             dict(name="realgeoiprace", run="^TestVerifC10RealGeoIP$", quick=300, thorough=6000, shards_thorough=2, race=True),
+        ]),
+        dict(name="cmd", dir="internal/cmd", src="C10/cmd", runs=[
+            dict(name="access-config", run="^TestVerifC10CmdAccess$", quick=3000, thorough=120000, shards_quick=2, shards_thorough=6),
         ]),
     ],
 )
